@@ -9,7 +9,7 @@ duration of write()."""
 from vlib.harness.runner import Result, Part, exc_signature
 from vlib.ref import netaddr, frag as rfrag
 from vlib.sim.core import MS, US, SimHorizon
-from vlib.checks.netutil import Net, air_frames
+from vlib.checks.netutil import with_id0, Net, air_frames
 
 PROPERTY = "C13"
 LEVEL = "fault_enumeration"
@@ -58,7 +58,7 @@ def run_case(case):
     hops = len(path) - 1
     acked_type = 64 < typ < 192
     needs = acked_type and hops >= 2
-    net = Net(horizon_ms=120_000)
+    net = Net(horizon_ms=120_000, id0=case.get("id0", 0))
     fault = case.get("fault")
     fobj = None
     if fault:
@@ -386,7 +386,12 @@ def _strategy():
     return case()
 
 
-def parts(tier):
+def _parts(tier):
     if tier == "quick":
         return [Part("enum-routes-x-faults", "enum", _enum(True), exhaustive=True), Part("generated", "gen", _strategy, n=200)]
     return [Part("enum-routes-x-faults", "enum", _enum(False), exhaustive=True), Part("generated", "gen", _strategy, n=15000)]
+
+
+def parts(tier):
+    # every case also carries a starting value of the 16-bit frame-id counter (netutil.with_id0)
+    return [with_id0(p) for p in _parts(tier)]
